@@ -159,6 +159,12 @@ func (f *resizeableTokenBucket) Type() proxyv1alpha1.FlowControlSchemaType {
 func (f *resizeableTokenBucket) TryAcquire() bool {
 	f.mu.Lock()
 	defer f.mu.Unlock()
+	if f.qps == 0 {
+		// A bucket that is never refilled admits nothing. It must not reach the rate limiter: the
+		// pinned x/time/rate divides the missing tokens by the rate, and for rate 0 the +Inf wait
+		// becomes a negative time.Duration, so every request would be admitted.
+		return false
+	}
 	return f.rateLimiter.TryAccept()
 }
 
